@@ -152,6 +152,8 @@ def run_case(cs):
         return _pad_case(cs, H)
     if mode < 0.24:
         return _symlink_case(cs, H)
+    if mode < 0.28:
+        return _threads_case(cs, H)
     n = _sizes(rng)
     data = world.gen_bytes(rng, n)
     _obs["short"] = env.rng_for(cs.seed_str, "short-reads") if rng.random() < 0.3 else None
@@ -295,6 +297,42 @@ def _symlink_case(cs, H):
     cs.evaluated()
     if r.exit != 0:
         cs.violation("verify-untouched-nonzero", {"kind": "verify-untouched", "exit": r.exit, "exc": r.exc_class, "size_class": "symlink"}, r.brief())
+
+
+def _threads_case(cs, H):
+    """the library entry points used from several threads at once (an application hashing files in workers)"""
+    import threading
+
+    rng = cs.rng
+    d = cs.dir()
+    files = []
+    for i in range(6):
+        data = rng.randbytes(rng.choice([3 * MIB + i, 2 * MIB - 1, MIB + 7 * i]))
+        p = os.path.join(d, "t%d.bin" % i)
+        with open(p, "wb") as f:
+            f.write(data)
+        fm = rng.sample(CLI_FMT, 2)
+        files.append((p, fm, {f: refhash.digest(f, data) for f in fm}, len(data)))
+    out = {}
+
+    def work(i):
+        p, fm, want, n = files[i]
+        res = []
+        for _ in range(3):
+            res.append((H.hash_file(p, fm[0]), H.multiple_format_hash_file(p, list(fm))))
+        out[i] = res
+
+    ts = [threading.Thread(target=work, args=(i,)) for i in range(len(files))]
+    for t in ts:
+        t.start()
+    for t in ts:
+        t.join(120)
+    cs.count("concurrent_hashing_cases")
+    for i, (p, fm, want, n) in enumerate(files):
+        for single, multi in out.get(i, []):
+            _cmp(cs, fm[0], "hash_file-threads", single, want[fm[0]], n)
+            for f in fm:
+                _cmp(cs, f, "multi_file-threads", multi.get(f), want[f], n)
 
 
 class _Stub:
